@@ -8,7 +8,8 @@
 (* listed properties: tags "EXT.<name>", reported as drift only.           *)
 (* The DTLS layer counts as up from its key derivation event on (the       *)
 (* `connected` hook of that layer is written after the state watch is set, *)
-(* so a faster upper layer may log first).                                 *)
+(* so a faster upper layer may log first); likewise the application may    *)
+(* log its Open before the SCTP layer's own `open` hook line is written.   *)
 (***************************************************************************)
 EXTENDS Naturals, Sequences, FiniteSets, TLC, Json, IOUtils
 
@@ -68,7 +69,7 @@ TSctp == Step("sctp_act", /\ sctpAct' = Set(sctpAct)
           /\ UNCHANGED <<mode, id, ice, started, dtlsAct, dtlsKeyed, keys, chanL2, chanApp, pc>>
 TChanL2 == Step("chan_open", chanL2' = Set(chanL2), {<<"EXT.OpenAfterSctp", sctpUp[Ev.inst]>>})
           /\ UNCHANGED <<mode, id, ice, started, dtlsAct, dtlsKeyed, keys, sctpAct, sctpUp, chanApp, pc>>
-TChanApp == Step("app_open", chanApp' = Set(chanApp), {<<"EXT.AppOpenAfterLayer", chanL2[Ev.inst]>>})
+TChanApp == Step("app_open", chanApp' = Set(chanApp), {<<"EXT.AppOpenAfterLayer", chanL2[Ev.inst] \/ sctpUp[Ev.inst]>>})
           /\ UNCHANGED <<mode, id, ice, started, dtlsAct, dtlsKeyed, keys, sctpAct, sctpUp, chanL2, pc>>
 TPcConn == Step("pc_conn", pc' = Set(pc),
                 {<<"EXT.ConnectedAfterAll", /\ started[Ev.inst]
